@@ -173,7 +173,8 @@ func Intersection(limit int, sets ...*Set) (*Set, bool) {
 	// Use divide & conquer to get the set intersections
 	switch len(sets) {
 	case 1:
-		return sets[0], false
+		// Return a copy: the result must never share structure with an operand.
+		return NewSet(sets[0].GetAll()), false
 	case 2:
 		intersection := NewSet([]string{})
 		var limitReached bool
@@ -204,9 +205,11 @@ func Intersection(limit int, sets ...*Set) (*Set, bool) {
 func Union(sets ...*Set) *Set {
 	switch len(sets) {
 	case 1:
-		return sets[0]
+		// Return a copy: the result must never share structure with an operand.
+		return NewSet(sets[0].GetAll())
 	case 2:
-		union := sets[0]
+		// Build the union in a new set instead of adding into the first operand.
+		union := NewSet(sets[0].GetAll())
 		union.Add(sets[1].GetAll())
 		return union
 	default:
